@@ -686,6 +686,18 @@ theorem keys_order_irrelevant (ks1 ks2 : List Nat) (h : ks1.Perm ks2) :
   · exact List.pairwise_mergeSort tr tot ks2
   · exact (List.mergeSort_perm ks1 _).trans (h.trans (List.mergeSort_perm ks2 _).symm)
 
+/-- what the pointer-hashed `Dict` / `Set` cells (and every other cell) *contain* never reaches a decision: two
+object-level states (`Obj.lean`) with the same slot kinds and memo kinds — whatever their cells hold, in whatever
+order a hash map would enumerate it, however they alias — have the same guards for every opcode and the same slot
+and memo kinds after every opcode.  So no address, hash seed or iteration order of a simulated container can
+influence which opcode is emitted next (from `C14.obj_step_refines_sim`). -/
+theorem object_contents_irrelevant (ver : Nat) (s1 s2 : Obj.OS) (h1 : Obj.WF s1) (h2 : Obj.WF s2) (pe : Bool)
+    (h : Obj.proj s1 pe = Obj.proj s2 pe) (c : Cfg) (op : Op) (arg : Arg) :
+    canEmit c (Obj.proj s1 pe) op = canEmit c (Obj.proj s2 pe) op ∧
+    Obj.proj (Obj.process ver s1 op arg) pe = Obj.proj (Obj.process ver s2 op arg) pe := by
+  refine ⟨by rw [h], ?_⟩
+  rw [(Obj.proj_process ver s1 h1 op arg pe).2, (Obj.proj_process ver s2 h2 op arg pe).2, h]
+
 /-- by construction the model's generation is a function of configuration and entropy state only
 (no clock, address, thread or OS input exists in it); stated for the record -/
 theorem generate_deterministic {σ} (E : Entropy σ) (X : G.Ext) (c : Cfg) (s : σ) :
